@@ -19,7 +19,9 @@ P = {
     'coq_header': 'From Coq Require Import Ascii String.\nFrom Coq Require Import ZArith NArith List.\n'
                   'From HV Require Import Base.Bytes TxCodec.EthTxModel.\nImport ListNotations.\nLocal Open Scope string_scope.',
     'lists': {'cases': {'type': 'eth_tx * obs', 'check': 'mismatches', 'shard': 50},
-              'big': {'type': 'eth_tx * obs', 'check': 'mismatches', 'shard': 1}},
+              'big': {'type': 'eth_tx * obs', 'check': 'mismatches', 'shard': 1},
+              'unwraps': {'type': 'unwrap_case', 'check': 'mismatches_unwrap', 'shard': 25},
+              'bigunwraps': {'type': 'unwrap_case', 'check': 'mismatches_unwrap', 'shard': 1}},
     'search': {'rounds': 4, 'n': 3000},
     'rule': 'a case is one Ethereum transaction (type, signer chain id, nonce, prices, gas, To or creation, value, data, access list, key; '
             'amounts nil/zero/boundary/2^256-1/beyond 256 bits; data 0..65537 bytes; access lists with repeated addresses and empty key '
